@@ -1073,16 +1073,21 @@ impl CodegenContext {
                         Identifier::new(format!("$macro_{}", self.next_macro_scope_id));
                     self.next_macro_scope_id += 1;
 
+                    // The arguments are evaluated where the macro is invoked, not inside the scope of the macro: otherwise
+                    // `super` in an argument would be off by one level and an argument could refer to a parameter
+                    let mut arg_values = vec![];
+                    for (expr, _) in args.iter().take(def.args.len()) {
+                        // Regardless if evaluation succeeds, we should create the macro argument symbol, because
+                        // it will be undefined otherwise
+                        arg_values.push(
+                            self.evaluate_expression(expr, true)?
+                                .unwrap_or(SymbolData::Placeholder),
+                        );
+                    }
+
                     self.macro_depth += 1;
                     let result = self.with_scope(&macro_scope, None, |s| {
-                        for (idx, arg_name) in def.args.iter().enumerate() {
-                            let (expr, _) = args.get(idx).unwrap();
-
-                            // Regardless if evaluation succeeds, we should create the macro argument symbol here, because
-                            // it will be undefined otherwise
-                            let value = s
-                                .evaluate_expression(expr, true)?
-                                .unwrap_or(SymbolData::Placeholder);
+                        for (arg_name, value) in def.args.iter().zip(arg_values) {
                             s.add_symbol(
                                 &arg_name.data,
                                 s.symbol(arg_name.span, value, SymbolType::MacroArgument),
